@@ -60,6 +60,35 @@ def c07_runs(tier):
 
 
 PROPS = {
+    "C20": {
+        "engine": "exhaustive sequence enumeration + rapidcheck stateful histories",
+        "technique": "model-based stateful testing in the static-heap build: reference queue whose entries carry 'the pushed text or nothing', unique texts per history, exact-size heap under ASan, full-reuse probe after every history",
+        "level": "all operation sequences over pushes with texts of every length 0..heap size, text-less pushes, SYST:ERR?, pop+release and clear "
+                 "for heap sizes 2..12 and queue capacities 1..4 up to a per-heap length bound (listed in the evidence), plus random histories "
+                 "of up to 1000 operations on heaps of 2..256 bytes",
+        "level_note": "only the USE_MEMORY_ALLOCATION_FREE=0 configuration is built; popped texts are released by the harness with scpiheap_free(..., false) as SCPI_SystemErrorNextQ does; texts are at most 255 characters",
+        "design_ref": "DESIGN.md section 4, C20",
+        "runs": simple("c20", cfgs=("heap",)),
+        "rule": "case = (queue capacity, heap size, operation sequence); enumerated cases distinct by construction, random by hash; non-trivial = "
+                "a text was pushed where it has to wrap around the end of the heap and some text was read back, or a push with text hit a full queue (write-cursor rollback)",
+        "assumptions": COMMON_ASSUME + ["texts <= 255 characters, unique within a history"],
+    },
+    "C10": {
+        "engine": "exhaustive sequence enumeration + rapidcheck stateful histories with fault injection",
+        "technique": "model-based stateful testing: reference bounded deque compared after every operation; allocation failures injected through link-time wrapping of strndup; ownership tracked through wrapped strndup/free plus ASan",
+        "level": "every operation sequence up to length 6 (quick) / 8 (thorough) over a 7-letter alphabet x capacities 1..4 x failure of every "
+                 "single text duplication, plus random histories of up to 300 and up to 10^4 operations with arbitrary 7-bit texts of 0..300 "
+                 "characters, in the malloc build and the build without device-dependent information",
+        "level_note": "texts popped through SCPI_ErrorPop are released by the harness exactly as SCPI_SystemErrorNextQ does; leak detection = "
+                      "every pointer returned by the wrapped strndup must reach the wrapped free by the end of the case (LeakSanitizer at exit as a backstop)",
+        "design_ref": "DESIGN.md section 4, C10",
+        "runs": simple("c10", cfgs=("default", "noinfo")),
+        "link": {"c10": ["-Wl,--wrap=strndup,--wrap=free"]},
+        "rule": "case = (capacity, fault position, operation sequence); enumerated cases distinct by construction, random ones by hash; "
+                "non-trivial = the history contains an overflow followed by a pop/clear/query, or more pushes than the capacity "
+                "interleaved with pops (ring indices wrap)",
+        "assumptions": COMMON_ASSUME + ["explicit text lengths never exceed strlen(text)"],
+    },
     "C11": {
         "engine": "explicit-state exploration + rapidcheck walks",
         "technique": "invariant over generated histories: explicit-state closure with context snapshots, exhaustive bounded operation sequences and rapidcheck random walks, status-byte equations checked after every operation",
